@@ -206,6 +206,48 @@ def run(ctx):
     ctx.expect(okw and okv, "R13.3", "_data_interpolator[accumulation]",
                "sum(w) and sum(w*v) are accumulated over the same masked corners with the same weights", di.loc())
 
+    # corner enumeration: all 2^N corners, each once, weight = product of the 1-d weights of that corner
+    npf = p.get_function("interpolate.nd_interp._next_point")
+    for ndim in (1, 2, 3):
+        itc = Interp(p)
+        itc.max_recursion = ndim + 2
+        I1, W1, NP = P("indices_1d"), P("weights_1d"), P("npts")
+        itc.shape_hints[I1] = (sp.Integer(ndim), sp.Integer(2), NP)
+        r = itc.call_function(npf, [sp.Integer(ndim), I1, W1], {}, None)
+        full = op("slc", NONE_T, NONE_T, NONE_T)
+        want = {}
+        import itertools
+        for corner in itertools.product((0, 1), repeat=ndim):
+            idxs = tuple(op("item", I1, sp.Tuple(sp.Integer(k), sp.Integer(c), full)) for k, c in enumerate(corner))
+            wt = sp.Integer(1)
+            for k, c in enumerate(corner):
+                wt = wt * op("item", W1, sp.Tuple(sp.Integer(k), sp.Integer(c), full))
+            want[idxs] = wt
+        got = {}
+        okc = isinstance(r, list)
+        if okc:
+            for y in r:
+                if not (isinstance(y, tuple) and len(y) == 2 and isinstance(y[0], (list, tuple))):
+                    okc = False
+                    break
+                key = tuple(T.to_term(v) for v in y[0])
+                if key in got:
+                    okc = False
+                from .common import erase_broadcast
+                got[key] = erase_broadcast(T.to_term(y[1]))
+        okc = okc and set(got) == set(want) and all(sp.expand(got[k] - want[k]) == 0 for k in want)
+        ctx.expect(okc, "R13.3", f"_next_point[{ndim} coordinate(s)]",
+                   f"yields each of the {2**ndim} corners exactly once with the product of that corner's 1-d weights", npf.loc(),
+                   derived=str({str([T.show(x, 40) for x in k]): T.show(v, 80) for k, v in list(got.items())[:4]}))
+        ctx.absorb(itc)
+    gd = [c for c in calls(di.node) if ast.unparse(c.func) == "self.get_data"]
+    okg = len(gd) == 1 and [ast.unparse(a) for a in gd[0].args] == ["intp_indices_nd", "self.interp_coord_dim_indices"]
+    lp = [n for n in ast.walk(di.node) if isinstance(n, ast.For) and "_next_point" in ast.unparse(n.iter)]
+    okg = okg and len(lp) == 1 and ast.unparse(lp[0].iter).replace("\n", "").replace(" ", "") == "_next_point(self.interp_ndims,indices_1d,weights_1d)"
+    ctx.expect(okg, "R13.3", "_data_interpolator[corner loop]",
+               "the corner loop runs over all interpolated coordinates with the computed indices and weights, data fetched at the corner indices",
+               di.loc())
+
     # ---- R13.4 dataset wiring
     fa = p.get_function(DSM + "interpolate_dataset_along_axis")
     loop = [n for n in own_walk(fa.node) if isinstance(n, ast.For) and ast.unparse(n.iter) == "data_set"]
@@ -339,7 +381,7 @@ def run(ctx):
               lambda sub, mp: binding.name_agreement_rule(sub, "R13.6", CallGraph(mp), mp.all_functions), "flag bound to another parameter")
     ctx.require_count("R13.1", 3)
     ctx.require_count("R13.2", 14)
-    ctx.require_count("R13.3", 3)
+    ctx.require_count("R13.3", 7)
     ctx.require_count("R13.4", 4)
     ctx.require_count("R13.5", 14)
     ctx.require_count("R13.6", 10)
